@@ -57,8 +57,62 @@ def fit_once(cfg, seed):
     return np.array(model.get_all_sensors()).tolist(), int(model.basis_matrix_.shape[1]), pre.get("r")
 
 
+def same_object_part(ctx, count):
+    """one model object with a life before the judged fits (fit with another seed, a re-ranking with fewer modes): fitting it
+    twice with the same data and seed gives the same ranking, and the seed still only orders the tail"""
+    from pysensors.reconstruction import SSPOR
+    rng = ctx.rng
+    for idx in range(count):
+        basis = rng.choice(models.BASIS_KINDS)
+        ne = rng.randint(2, ctx.scale(6, 9)); nf = rng.randint(ne + 1, ne + ctx.scale(6, 10))
+        X = np.array([[rng.randint(-6, 6) for _ in range(nf)] for _ in range(ne)], dtype=float)
+        nm = None if basis == "identity" else rng.randint(2, min(ne, nf))
+        opt = rng.choice(["qr", "ccqr", "gqr"])
+        model = SSPOR(basis=models.make_basis(basis, nm), optimizer=H.make_optimizer(opt))
+        life = []
+        try:
+            model.fit(X.copy(), quiet=True, seed=rng.randint(0, 99)); life.append("fit")
+            m = model.basis_matrix_.shape[1]
+            if m >= 2 and rng.random() < 0.7:
+                k = rng.randint(1, m - 1)
+                model.update_n_basis_modes(k); life.append(f"update_n_basis_modes({k})")
+            if rng.random() < 0.4:
+                model.set_number_of_sensors(rng.randint(1, nf)); life.append("set_number_of_sensors")
+        except ValueError:
+            ctx.count("same_object:life_rejected")
+            continue
+        ctx.evaluations += 1
+        ctx.count("same_object:" + basis + "/" + opt)
+        seeds = [0, 1, rng.randint(2, 10 ** 6)]
+        runs = {}
+        for s in seeds:
+            r1 = np.array(model.fit(X.copy(), quiet=True, seed=s).get_all_sensors()).tolist()
+            m1 = int(model.basis_matrix_.shape[1])
+            r2 = np.array(model.fit(X.copy(), quiet=True, seed=s).get_all_sensors()).tolist()
+            m2 = int(model.basis_matrix_.shape[1])
+            runs[s] = (r1, m1)
+            if r1 != r2 or m1 != m2:
+                ctx.violation("concrete", f"SSPOR after {life}: two fits with the same data and seed {s} give {r1} ({m1} modes) and {r2} ({m2} modes)",
+                              {"signature": "same-seed-different-ranking", "X": X.tolist(), "basis": basis, "n_modes": nm, "opt": opt, "life": life,
+                               "seed": s, "index": idx})
+                break
+        else:
+            r0, m0 = runs[seeds[0]]
+            for s in seeds[1:]:
+                r, m = runs[s]
+                if m != m0 or r[:m0] != r0[:m0] or sorted(r[m0:]) != sorted(r0[m0:]):
+                    ctx.violation("concrete", f"SSPOR after {life}: leading {m0} sensors / trailing set differ between seeds {seeds[0]} and {s}",
+                                  {"signature": "lead-depends-on-seed", "X": X.tolist(), "basis": basis, "n_modes": nm, "opt": opt, "life": life,
+                                   "seeds": seeds, "index": idx})
+                    break
+            else:
+                if len({tuple(v[0]) for v in runs.values()}) >= 2:
+                    ctx.nontriv(("same_object", basis, opt, (ne, nf), tuple(life)))
+
+
 def run(ctx: C.Ctx):
     rng = ctx.rng
+    same_object_part(ctx, ctx.scale(40, 500))
     reqs, metas = [], []
     for idx in range(ctx.scale(100, 1500)):
         basis = rng.choice(models.BASIS_KINDS)
